@@ -1044,6 +1044,8 @@ func (obj *Package) DefLambda(name string, lam *Lambda, fc func(args List) Objec
 		obj.lambdas[name] = lam
 	}
 	if fi := obj.funcs[name]; fi != nil {
+		// The entry made for a call compiled before the definition has no name.
+		fi.Name = name
 		fi.Doc = lam.Doc
 		fi.Create = fc
 		fi.Pkg = obj
